@@ -171,7 +171,7 @@ end
 def MAX_RECURSION_DEPTH : Nat := 402
 
 inductive DErr
-  | curly | name | wrapper | arity | atom | num | thresh | typeck | depth | validity
+  | curly | name | wrapper | arity | atom | num | thresh | typeck | depth | validity | expr
 deriving DecidableEq, Repr
 
 abbrev R := Except DErr
@@ -403,6 +403,17 @@ def fromTree (c : Codec) (t : Tree) : R Ms :=
   match fromTreeI c t with
   | .error e => .error e
   | .ok m => if Ms.all c.gv m then .ok m else .error .validity
+
+/-- `Tree::from_str` (Model/Expr.lean: checksum, pre-check, builder) followed by `FromTree`:
+the parser on CHARACTERS (`Miniscript::from_str_with_validation_params` without the final
+`validate`) -/
+def fromStr (c : Codec) (s : List Char) : R Ms :=
+  match Expr.fromStrInner s with
+  | .error _ => .error .expr
+  | .ok nodes =>
+    match Expr.toTree nodes with
+    | none => .error .expr
+    | some t => fromTree c t
 
 /-! ## numeric arguments: `parse_num` followed by the range check of the position -/
 
